@@ -68,7 +68,7 @@ def hook(put):
 
     hs = X.src("src/supplemental/http/http_server.c")
     rx = X.strip_comments(X.func_body(hs, "http_sconn_rxdone"))
-    X.one(r"if \(nng_http_get_status\(sc->conn\) >= NNG_HTTP_STATUS_BAD_REQUEST\) \{\s*http_sconn_error\(sc, nng_http_get_status\(sc->conn\)\);\s*return;.*?"
+    X.one(r"if \(nng_http_get_status\(sc->conn\) >= NNG_HTTP_STATUS_BAD_REQUEST\) \{\s*sc->close = true;\s*http_sconn_error\(sc, nng_http_get_status\(sc->conn\)\);\s*return;.*?"
           r'strncmp\(val, "HTTP/1\.", 7\) != 0\) \{\s*sc->close = true;\s*http_sconn_error\(sc, NNG_HTTP_STATUS_HTTP_VERSION_NOT_SUPP\);.*?'
           r'strcmp\(val, "HTTP/1\.1"\) != 0\) \{\s*sc->close = true;\s*\} else \{\s*needhost = true;.*?'
           r"if \(uri\[0\] != '/'\) \{\s*sc->close = true;\s*http_sconn_error\(sc, NNG_HTTP_STATUS_BAD_REQUEST\);.*?"
